@@ -165,7 +165,11 @@ func runC18(c *harness.Ctx) {
 	// ---- a fault-free history establishes the durable identity
 	var durable *ident
 	var hist []string
-	nBase := 1 + t.Draw("nbase", 3)
+	maxBase := 3
+	if c.Tier == "thorough" {
+		maxBase = 5
+	}
+	nBase := 1 + t.Draw("nbase", maxBase)
 	for i := 0; i < nBase; i++ {
 		k := drawKind(c, "base")
 		if i > 0 {
